@@ -147,6 +147,9 @@ func TestVerifSearch_Ring(t *testing.T) {
 				k = "write"
 			}
 			ops[i] = verifRingOp{k, sizes[rng.Intn(len(sizes))] - rng.Intn(2)}
+			if ops[i].N < 0 && (k == "write" || k == "read") {
+				ops[i].N = 0 // a negative length is not an input of Write/Read (make would panic in this harness)
+			}
 		}
 		if m := verifRunRing(initial, ops); m != "" {
 			verifWitness(t, "ring.New(%d) then %v: %s", initial, ops, m)
